@@ -59,6 +59,7 @@ type Engine struct {
 	opaqueDefs    map[string]string // opaque spec function -> defining axiom
 	onAlloc       map[string]string
 	onStoreFlag   map[string]string
+	callers       map[*ssa.Function][]ssa.CallInstruction
 	errflow       map[string]*Contract // explicit error-flow contracts (zz_verif_errflow.go, spec/errflow.spec)
 	errflowOrder  []string
 	nonNilGlobals map[*ssa.Global]bool
